@@ -243,6 +243,17 @@ def record_placement(ctx, r, walmgr):
             # (closures handed to extern combinators are not inlined: they stay part of the scope)
             scope = [b] + [prog.bodies[p] for p in sorted(prog.reachable_bodies([b0])) if prog.bodies[p].is_closure
                            and p not in b.inlined]
+            # ... and private deciding helpers that are not part of the view (`Placement::decide(writer, target)`:
+            # answers with a bool or a fieldless enum)
+            for s in b.calls():
+                t3 = prog.local_target(s)
+                if t3 is None or t3.reachable or t3.is_closure or t3.path in b.inlined or t3 in scope:
+                    continue
+                rt = prog.types[t3.locals[0]]
+                ra = prog.adts.get(rt.get("def")) if rt.get("k") == "adt" else None
+                if rt.get("k") == "bool" or prog.ty_str(t3.locals[0]) == "bool" or (
+                        ra and ra["kind"] == "Enum" and all(not v["fields"] for v in ra["variants"])):
+                    scope.append(t3)
             # (b) open_writer(seg)
             n_open = 0
             for sb in scope:
@@ -345,6 +356,10 @@ def prune_bound(ctx, r, walmgr):
                             rl = fsl.leaves_of_place({"l": 0, "p": []})
                             if item_field and bound_param and any(l[0] == "binop" and l[2] == bb2 for l in rl):
                                 ok = True
+        # the id of a discovered segment: a u64 field of a crate struct that also holds the segment's path
+        idn = set(f["name"] for a in prog.adts.values() if a["kind"] == "Struct" and
+                  any("std::path::PathBuf" in prog.ty_str(f2["ty"]) for f2 in a["variants"][0]["fields"])
+                  for f in a["variants"][0]["fields"] if prog.ty_str(f["ty"]) == "u64")
         for sw in b.normal_blocks():
             c = cfgutil.cmp_true_edge(b, sw)
             if c is None or c[0] not in ("Lt", "Gt", "Le", "Ge"):
@@ -352,9 +367,14 @@ def prune_bound(ctx, r, walmgr):
             op, x, y, t_true, t_false = c
             lx = sl.leaves_of_operand(x)
             ly = sl.leaves_of_operand(y)
-            lt_ok = (op == "Lt" and any(l[0] == "param" for l in ly) and any(l[-1] and l[-1][-1] == "id" for l in lx)) or \
-                    (op == "Gt" and any(l[0] == "param" for l in lx) and any(l[-1] and l[-1][-1] == "id" for l in ly))
+            lt_ok = (op == "Lt" and any(l[0] == "param" for l in ly) and any(l[-1] and l[-1][-1] in idn for l in lx)) or \
+                    (op == "Gt" and any(l[0] == "param" for l in lx) and any(l[-1] and l[-1][-1] in idn for l in ly))
             if lt_ok and cfgutil.edge_dominates(b, (sw, t_true), e.site.bb):
+                ok = True
+            # `if id >= bound { continue }`: the unlink lies behind the false edge
+            ge_ok = (op == "Ge" and any(l[0] == "param" for l in ly) and any(l[-1] and l[-1][-1] in idn for l in lx)) or \
+                    (op == "Le" and any(l[0] == "param" for l in lx) and any(l[-1] and l[-1][-1] in idn for l in ly))
+            if ge_ok and t_false is not None and cfgutil.edge_dominates(b, (sw, t_false), e.site.bb):
                 ok = True
         r.check(ok, "unlink-below-bound", owner,
                 "a segment is unlinked at %s only if its id is strictly below the bound parameter" % site_where(e.site),
